@@ -289,3 +289,157 @@ fn read_symbol_table_contract() { read_symbol_table::<64>(false); }
 #[kani::proof]
 #[kani::unwind(42)]
 fn read_symbol_table_cut_stream() { read_symbol_table::<8>(true); }
+
+// ================================================================================================
+// cd2.*  parse_simple (RFC 7932 section 3.4 "simple prefix codes", 18181-1 C.2.? prefix code histograms)
+// ================================================================================================
+// Header after HSKIP == 1:   NSYM - 1 = u(2);  NSYM symbols of ALPHABET_BITS bits each, ALPHABET_BITS = the smallest
+// width that can represent every symbol 0 .. alphabet_size - 1 (= ceil(log2(alphabet_size)); 2^k + 1 symbols need
+// k + 1 bits, 2^k symbols need k);  for NSYM == 4 one more bit tree_select.
+// Code lengths "in the order of the symbols decoded":  NSYM 1: 0 bits;  2: 1,1;  3: 1,2,2;  4: 2,2,2,2 (tree_select 0)
+// or 1,2,3,3 (tree_select 1).  A symbol >= alphabet_size or two identical symbols: the stream is rejected.
+// Within equal lengths the canonical code (RFC 7932 3.2) orders by symbol value -- that is a property of the
+// length VECTOR indexed by symbol, which is what parse_simple hands to with_code_lengths.
+//
+// CUT: `with_code_lengths` does not finish under CBMC (file header), so it is replaced by a stub with its ASSUMED
+// contract "Ok exactly when the Kraft sum of the vector is 1" (decided on the ACTUAL vector: the stub first checks
+// that only the transmitted symbols carry a length, then sums over those <= 4 positions). The stub is the
+// observation point for the code-length vector: len == alphabet_size, every entry (symbolic index) as RFC 7932 says.
+// Precondition (call sites): 2 <= alphabet_size <= 2^15 (Histogram::parse prefix.rs:133-139; lib.rs:442).
+const PS_BASE: u64 = 0x5053_494d_504c_0000;
+// [0] alphabet_size, [1..=4] symbols as the standard reads them, [5] NSYM, [6] tree_select, [7] number of calls
+static mut PS: [u64; 8] = [PS_BASE + 1, PS_BASE + 2, PS_BASE + 3, PS_BASE + 4, PS_BASE + 5, PS_BASE + 6, PS_BASE + 7, PS_BASE + 8];
+
+/// RFC 7932 3.4: code length of the i-th transmitted symbol
+fn spec_simple_len(nsym: u64, tree_select: bool, i: usize) -> u8 {
+    match (nsym, tree_select) {
+        (2, _) => [1, 1, 0, 0][i],
+        (3, _) => [1, 2, 2, 0][i],
+        (4, false) => [2, 2, 2, 2][i],
+        (4, true) => [1, 2, 3, 3][i],
+        _ => 0,
+    }
+}
+
+/// ALPHABET_BITS: bit length of alphabet_size - 1
+fn spec_alphabet_bits(alphabet_size: u32) -> usize {
+    (32 - (alphabet_size - 1).leading_zeros()) as usize
+}
+
+fn rec_with_code_lengths(code_lengths: Vec<u8>) -> CodingResult<Histogram> {
+    unsafe {
+        PS[7] += 1;
+        let asz = PS[0] as usize;
+        let nsym = PS[5];
+        let tree = PS[6] != 0;
+        let syms = [PS[1] as usize, PS[2] as usize, PS[3] as usize, PS[4] as usize];
+        assert!(code_lengths.len() == asz, "[C04] the code-length vector has one entry per symbol of the alphabet");
+        // parse_simple only gets here when every transmitted symbol is inside the alphabet (checked by the harness too)
+        let n = nsym as usize;
+        let mut distinct = true;
+        let mut kraft = 0u32;
+        let mut i = 0;
+        while i < 4 {
+            if i < n {
+                assert!(syms[i] < asz, "[C04] a symbol outside the alphabet never reaches the code construction");
+                let mut first = true;
+                let mut j = 0;
+                while j < i {
+                    if syms[j] == syms[i] { first = false; }
+                    j += 1;
+                }
+                if first {
+                    let l = code_lengths[syms[i]];
+                    assert!(l <= 15, "[C04] code lengths are at most 15");
+                    if l != 0 { kraft += 1u32 << (15 - l as u32); }
+                } else {
+                    distinct = false;
+                }
+            }
+            i += 1;
+        }
+        // for all k (symbolic index): the entry is what RFC 7932 3.4 says
+        let k: usize = kani::any();
+        kani::assume(k < asz);
+        let mut want = 0u8;
+        let mut mine = false;
+        let mut i = 0;
+        while i < 4 {
+            if i < n && syms[i] == k { want = spec_simple_len(nsym, tree, i); mine = true; }
+            i += 1;
+        }
+        if !mine {
+            assert!(code_lengths[k] == 0, "[C04] only the transmitted symbols get a code");
+        } else if distinct {
+            assert!(code_lengths[k] == want, "[C04] simple prefix code lengths 1,1 / 1,2,2 / 2,2,2,2 / 1,2,3,3 in the order of the symbols decoded");
+        }
+        if distinct {
+            assert!(kraft == 1 << 15, "[C04] the simple code shapes are complete codes");
+        }
+        kani::cover!(distinct && nsym == 4 && tree);
+        kani::cover!(!distinct);
+        // assumed contract of with_code_lengths: accepts exactly the complete codes
+        if kraft == 1 << 15 {
+            Ok(Histogram::with_single_symbol(0x5a5a)) // placeholder table: the table itself is behind the cut
+        } else {
+            Err(Error::InvalidPrefixHistogram)
+        }
+    }
+}
+
+fn parse_simple_check(alphabet_size: u32) {
+    let data: [u8; 16] = kani::any();
+    let off: usize = kani::any();
+    kani::assume(off <= 7);
+    let view = View::of(&data, 16);
+    let w = spec_alphabet_bits(alphabet_size);
+    // the header as the standard reads it
+    let nsym = view.u(off, 2) as u64 + 1;
+    let s = [view.u(off + 2, w), view.u(off + 2 + w, w), view.u(off + 2 + 2 * w, w), view.u(off + 2 + 3 * w, w)];
+    let tree = nsym == 4 && view.u(off + 2 + 4 * w, 1) == 1;
+    let used = 2 + nsym as usize * w + if nsym == 4 { 1 } else { 0 };
+    let n = nsym as usize;
+    let in_range = (0..4).all(|i| i >= n || s[i] < alphabet_size);
+    let distinct = (0..4).all(|i| (0..i).all(|j| i >= n || s[i] != s[j]));
+    unsafe {
+        PS = [alphabet_size as u64, s[0] as u64, s[1] as u64, s[2] as u64, s[3] as u64, nsym, tree as u64, 0];
+    }
+    let mut bs = Bitstream::new(&data);
+    if bs.skip_bits(off).is_err() { return; }
+    let r = Histogram::parse_simple(&mut bs, alphabet_size);
+    let calls = unsafe { PS[7] };
+    if !in_range {
+        assert!(matches!(&r, Err(Error::InvalidPrefixHistogram)), "[C04] a simple code naming a symbol >= alphabet_size is rejected");
+        assert!(calls == 0, "[C04] and no code is built for it");
+    } else if nsym == 1 {
+        assert!(matches!(&r, Ok(h) if h.single_symbol() == Some(s[0])), "[C04] NSYM 1: the one symbol, coded with zero bits");
+        assert!(calls == 0);
+        assert!(bs.num_read_bits() == off + used, "[C04] parse_simple consumes 2 + NSYM * ALPHABET_BITS (+1) bits");
+    } else if !distinct {
+        assert!(matches!(&r, Err(Error::InvalidPrefixHistogram)), "[C04] a simple code naming a symbol twice is rejected");
+    } else {
+        assert!(r.is_ok(), "[C04] a simple code over distinct symbols of the alphabet is accepted");
+        assert!(calls == 1, "[C04] exactly one code is built");
+        assert!(bs.num_read_bits() == off + used, "[C04] parse_simple consumes 2 + NSYM * ALPHABET_BITS (+1) bits");
+    }
+    kani::cover!(r.is_ok() && nsym == 1);
+    kani::cover!(r.is_ok() && nsym == 2);
+    kani::cover!(r.is_ok() && nsym == 3);
+    kani::cover!(r.is_ok() && nsym == 4 && tree);
+    kani::cover!(r.is_ok() && nsym == 4 && !tree);
+    kani::cover!(r.is_err() && in_range && nsym == 3);
+    kani::cover!(r.is_err() && !in_range && nsym == 4);
+}
+
+/// every alphabet size the format allows, every header content
+#[kani::proof]
+#[kani::stub(Histogram::with_code_lengths, rec_with_code_lengths)]
+#[kani::unwind(10)]
+fn parse_simple_lengths_contract() {
+    let alphabet_size: u32 = kani::any();
+    kani::assume(alphabet_size >= 2 && alphabet_size <= 1 << 15);
+    parse_simple_check(alphabet_size);
+    kani::cover!(alphabet_size == (1 << 15));
+    kani::cover!(alphabet_size == 257);
+    kani::cover!(alphabet_size == 2);
+}
